@@ -9,6 +9,6 @@ require (
 
 require golang.org/x/image v0.23.0
 
-require github.com/go-text/typesetting-utils v0.0.0-20241103174707-87a29e9e6066 // indirect
+require github.com/go-text/typesetting-utils v0.0.0-20241103174707-87a29e9e6066
 
 replace github.com/go-text/typesetting => /repo
